@@ -122,7 +122,20 @@ def check(run):
                     d["c"]["cvar"] = 4                   # a 400 byte value
                     d["c"]["ccomp"] = 4
         plan = world.rand_plan(rng, keys, max_segments=4)
-        if rnd % 2 == 0:
+        if rnd % 3 == 1 and not big:
+            # segments that have no file at all for some (or any) column, next to segments that do: the documents
+            # of the last commits carry no column values, and nothing merges them
+            bare = keys[-4:]
+            for k in bare[:2]:
+                adocs[k]["c"] = {}
+                adocs[k]["s"] = dict((f, v) for f, v in adocs[k]["s"].items() if f in ("blob", "flag"))
+            for k in bare[2:]:
+                for f in ("num", "tags", "cvar"):
+                    adocs[k]["c"].pop(f, None)
+                    adocs[k]["s"].pop(f, None)
+            plan = [("commit", keys[:4], {"merge": False}), ("commit", keys[4:-4], {"merge": False}),
+                    ("commit", bare[:2], {"merge": False}), ("commit", bare[2:], {"merge": False})]
+        elif rnd % 2 == 0:
             # deletions that are then merged away: live documents after a deleted one move up
             live = [k for k in keys if k not in [x for st in plan if st[0] == "delete" for x in st[1]]]
             if len(live) > 3:
